@@ -802,6 +802,10 @@ class IrToWasmCompiler:
             self.emit(opcode)
             self.stack -= 1
             # Jump is handled by shapes!
+            if tree.value[1] is tree.value[2]:
+                # Both ways go to the same block, this is not an if shape
+                self.emit("drop")
+                self.stack -= 1
         else:  # pragma: no cover
             raise NotImplementedError(str(tree))
 
